@@ -7,8 +7,13 @@
    Input of model and specification: the annotations (inspect.getfullargspec(f).annotations, any number of parameters of
    any kind, in any order) and the *parsed* docstring as docstring_parser returns it.
 
-   The two findings of the first round (C19-untyped-param, C19-pipe-union-context) are fixed in /repo (d123a44, 2108a61):
-   the statements below are the full ones; the former `_refuted` witnesses are kept as Examples of the repaired behaviour. *)
+   The findings of the earlier rounds (C19-untyped-param d123a44, C19-pipe-union-context 2108a61, C19-unevaluable-type
+   eaebe0b) are fixed in /repo: the statements below are the full ones, without any guard on the documented types; the
+   former witnesses are kept as Examples of the repaired behaviour.
+
+   Limit (audit): `consistent` evaluates documented types with eval / ty_eqb of Model/DocstringTyping.v, the same hand-written
+   model of typing the model of the check uses (validated against CPython by the stream `typing` and by the Python-side
+   oracle py_consistent on every run).                                                                              *)
 From Coq Require Import List ZArith Bool String.
 From PV Require Import Base.Exn Model.DocstringTyping Model.Docstring Spec.DocstringSpec Gen.Docstring
   Proofs.DocstringTy Proofs.DocstringEvalLemmas Proofs.DocstringRef Proofs.DocstringMain Proofs.DocstringWf.
@@ -85,10 +90,11 @@ Print Assumptions C19_context_complete.
 Definition dt (text : string) (e : texpr) : dtype := {| dt_text := text; dt_expr := e |}.
 
 (* ---- rejection: always PedanticDocstringException ------------------------------------------------------------------- *)
-(* whenever every documented type that is present can be evaluated (or names something undefined), the check raises
-   nothing but PedanticDocstringException: no IndexError, no TypeError, no AttributeError *)
-Theorem C19_only_docstring_exception : forall scope req ann doc,
-  sig_ok ann = true -> scope_ok scope ann = true -> doc_evaluable scope doc = true ->
+(* for every signature and every parsed docstring - documented types missing, not expressions at all, with a wrong number
+   of type arguments, subscripting something that is not generic, naming something undefined ... - the check raises
+   nothing but PedanticDocstringException: no IndexError, TypeError, SyntaxError, AttributeError *)
+Theorem C19_only_docstring_exception : forall req ann doc,
+  sig_ok ann = true ->
   check docstring_prog (fc req ann doc) = Ok tt \/ check docstring_prog (fc req ann doc) = Raise PDocstringC.
 Proof.
   intros. rewrite C19_prog_is_canonical, check_canonical. eapply only_docstring_exception; eauto.
@@ -96,7 +102,7 @@ Qed.
 Print Assumptions C19_only_docstring_exception.
 
 Theorem C19_rejects_inconsistent : forall scope req ann doc,
-  sig_ok ann = true -> scope_ok scope ann = true -> doc_evaluable scope doc = true ->
+  sig_ok ann = true -> scope_ok scope ann = true ->
   ~ consistent scope ann doc -> check docstring_prog (fc req ann doc) = Raise PDocstringC.
 Proof.
   intros. rewrite C19_prog_is_canonical, check_canonical. eapply inconsistent_rejected; eauto.
@@ -104,7 +110,8 @@ Qed.
 Print Assumptions C19_rejects_inconsistent.
 
 (* every single edit of a consistent docstring: drop / add / rename a documented parameter (also onto the name of another
-   one), change one documented type (any evaluable expression with a different denotation: a change at any nesting depth),
+   one), change one documented type to ANY expression with a different denotation or with none (a change at any nesting
+   depth, also into something that is not a type: `List[int, str]`, `int[str]`, `int or`, `int.foo`),
    remove the type of a documented parameter, drop / add / alter the Returns entry, Returns without a type *)
 Theorem C19_one_edit_rejected : forall scope req ann doc doc',
   sig_ok ann = true -> scope_ok scope ann = true ->
@@ -151,8 +158,8 @@ Theorem C19_type_equality_is_equivalence :
 Proof. split; [exact ty_eqb_refl|]. split; [exact ty_eqb_sym|exact ty_eqb_trans]. Qed.
 Print Assumptions C19_type_equality_is_equivalence.
 
-(* the hypothesis `evaluable` on the new documented type of an edit (E_change_type, E_alter_returns) covers the whole
-   syntactic vocabulary: every well-formed type expression (names, None, typing and builtin generics with the right number
+(* a fact about the vocabulary (no longer a hypothesis of anything): the handler added by eaebe0b is never reached by a
+   well-formed type expression (names, None, typing and builtin generics with the right number
    of arguments, Tuple[X, ...], Callable[[...], R], Callable[..., R], Union / Optional / X | Y, at any nesting depth)
    evaluates to a value or fails with a NameError, whatever the scope *)
 Theorem C19_vocabulary_is_evaluable : forall scope d,
@@ -172,6 +179,14 @@ Proof. vm_compute. reflexivity. Qed.
 (* def f(a: int) with `a: ...` instead of `a (int): ...` raises PedanticDocstringException *)
 Example ex_untyped_rejected :
   check docstring_prog (fc true [("a", TCls "int")] (mkdoc RawText [("a", None)] None)) = Raise PDocstringC.
+Proof. vm_compute. reflexivity. Qed.
+
+(* `a (List[int, str])`, `a (int[str])`, `a (int or)` (not an expression), `a (typing-free int.foo)` for def f(a: int) *)
+Example ex_unevaluable_rejected :
+  forallb (fun e => match check docstring_prog (fc true [("a", TCls "int")] (mkdoc RawText [("a", Some (dt "x" e))] None)) with
+                    | Raise x => prefix x PDocstringC && prefix PDocstringC x | Ok _ => false end)
+    [ESub (EName "List") (ETuple [EName "int"; EName "str"]); ESub (EName "int") (EName "str"); EInvalidSyntax;
+     EAttr (EName "typing") "foo"] = true.
 Proof. vm_compute. reflexivity. Qed.
 
 (* ---- non-vacuity ---------------------------------------------------------------------------------------------------------- *)
@@ -210,7 +225,7 @@ Proof. apply (E_rename_param ex_scope RawText [("k", Some ex_k)] "a" "b"). discr
 Definition ex_k' : dtype := dt "Optional[Dict[str, int]]" (plug (CSubS (EName "Optional") (CSubS (EName "Dict") (CTupleAt [EName "str"] CHole []))) (EName "int")).
 Example ex_edit_deep : one_edit ex_scope ex_doc (mkdoc RawText ([] ++ ("k", Some ex_k') :: [("a", Some ex_a); ("args", Some ex_args)]) (Some [ex_ret])).
 Proof.
-  apply (E_change_type ex_scope RawText [] "k" ex_k ex_k'); [vm_compute; reflexivity|].
+  apply (E_change_type ex_scope RawText [] "k" ex_k ex_k').
   intros [t [t' [E1 [E2 Q]]]]. vm_compute in E1, E2. inversion E1; inversion E2; subst. discriminate.
 Qed.
 
@@ -219,8 +234,15 @@ Example ex_edit_deep_rejected :
   = Raise PDocstringC.
 Proof. vm_compute. reflexivity. Qed.
 
+(* an edit into something that is not a type at all *)
+Example ex_edit_not_a_type : one_edit ex_scope ex_doc (mkdoc RawText ([] ++ ("k", Some (dt "Dict[str]" (ESub (EName "Dict") (EName "str")))) :: [("a", Some ex_a); ("args", Some ex_args)]) (Some [ex_ret])).
+Proof.
+  apply (E_change_type ex_scope RawText [] "k" ex_k (dt "Dict[str]" (ESub (EName "Dict") (EName "str")))).
+  intros [t [t' [E1 [E2 Q]]]]. vm_compute in E2. discriminate.
+Qed.
+
 Example ex_edit_alter_returns : one_edit ex_scope ex_doc (mkdoc RawText [("k", Some ex_k); ("a", Some ex_a); ("args", Some ex_args)] (Some [ex_args])).
 Proof.
-  apply (E_alter_returns ex_scope RawText _ ex_ret ex_args); [vm_compute; reflexivity|].
+  apply (E_alter_returns ex_scope RawText _ ex_ret ex_args).
   intros [t [t' [E1 [E2 Q]]]]. vm_compute in E1, E2. inversion E1; inversion E2; subst. discriminate.
 Qed.
